@@ -568,6 +568,7 @@ def _norm_bound(x, n, default):
 
 def do_setitem(interp, obj, key, v, path):
     if isinstance(obj, DictV):
+        check_hashable(interp, key)
         interp.journal_write(path, obj, ('setitem', key))
         if obj.dom is None and isinstance(key, (str, int, StrT)) and not isinstance(key, bool):
             # finite dict: (possibly symbolic) keys are kept as they are; equal keys are merged
@@ -621,7 +622,17 @@ def _wrapper_for(interp, sample):
     return lambda e: e
 
 
+def check_hashable(interp, key):
+    """dict / set keys must be hashable: list, dict and set values raise TypeError in CPython"""
+    if isinstance(key, (SeqV, DictV, SetV)):
+        interp.raise_builtin('TypeError', f"unhashable type: '{interp.class_of(key).name}'")
+    if isinstance(key, tuple):
+        for x in key:
+            check_hashable(interp, x)
+
+
 def dict_get(interp, d: DictV, key, path):
+    check_hashable(interp, key)
     if d.dom is None:
         for k, v in d.concrete.items():
             r = interp.eq(k, key, path)
@@ -1557,6 +1568,7 @@ LIST_METHODS = {'append': _l_append, 'extend': _l_extend, 'pop': _l_pop, 'insert
 
 def _set_add(interp, path, args, kw):
     s, x = args
+    check_hashable(interp, x)
     interp.journal_write(path, s, ('add', x))
     if s.sym is None and (isinstance(x, (str, int, bool, EnumV, StrT)) or x is None):
         interp.set_add(s, x, path)
